@@ -374,6 +374,54 @@ func genHistory(r *rng, length int) string {
 	return strings.Join(ops, ";")
 }
 
+// recycleMotifs: see genC19 (also part of C04: a recycled struct must not carry a stale transpose
+// into a new view)
+func recycleMotifs(emit func(string)) {
+	// recycled tensor structs: a tensor in some state (lazily transposed, clone of a transposed
+	// tensor, view, materialised, reshaped) goes back to the pool; the next tensors built from the
+	// recycled structs must behave as fresh ones under every structural operation
+	{
+		lives := []string{
+			"T:0:1,0;clone:0;ret:1", "T:0:1,0;ret:0", "slice:0:_/1.3.1;ret:1", "slice:0:_/1.3.1;T:1:1,0;ret:1",
+			"T:0:1,0;slice:0:0.2.1/_;ret:1", "T:0:1,0;mat:0;ret:1", "safeT:0:1,0;ret:1", "T:0:1,0;transpose:0;ret:0",
+			"reshape:0:2,6;ret:0", "T:0:1,0;clone:0;T:1:1,0;ret:1", "clone:0;T:1:1,0;clone:1;ret:1;ret:2",
+		}
+		nexts := []string{"T:%d:1,0;at:%d:0,1", "T:%d:1,0;UT:%d", "T:%d:1,0;transpose:%d", "slice:%d:_/0.1.1", "T:%d:1,0;mat:%d", "T:%d:1,0;clone:%d", "reshape:%d:6", "memset:%d:7", "UT:%d", "transpose:%d"}
+		// the recycled struct may also be picked up by a view, a clone or a result of a LIVE tensor
+		// (Slice, Clone and the engines borrow structs from the same pool)
+		reuse := []string{"slice:%p:0.2.1;T:%d:1,0;at:%d:0,1", "slice:%p:_/1.3.1;T:%d:1,0;UT:%d", "clone:%p;T:%d:1,0;transpose:%d", "slice:%p:0.2.1;T:%d:1,0;mat:%d",
+			"bins:add:%p:1:left:safe;T:%d:1,0;UT:%d", "safeT:%p:1,0;UT:%d", "slice:%p:1.3.1;reshape:%d:8", "mat:%p;T:%d:1,0"}
+		for _, l := range lives {
+			if strings.Contains(l, "ret:0") {
+				continue
+			}
+			nt := 1 + strings.Count(l, "clone") + strings.Count(l, "slice") + strings.Count(l, "mat:") + strings.Count(l, "safeT")
+			for _, nx := range reuse {
+				// a fresh live parent (tensor nt), then the operation on it whose result (tensor nt+1) reuses the struct
+				step := strings.ReplaceAll(strings.ReplaceAll(nx, "%p", fmt.Sprint(nt)), "%d", fmt.Sprint(nt+1))
+				emit(fmt.Sprintf("prog f64 new:rm:3,4:1;%s;new:rm:3,4:20;%s", l, step))
+				// ... or on a parent that was alive all along: build it BEFORE the first life ends
+				pre := strings.Replace(l, ";ret:", ";new:rm:3,4:20;ret:", 1)
+				if pre != l {
+					step = strings.ReplaceAll(strings.ReplaceAll(nx, "%p", fmt.Sprint(nt)), "%d", fmt.Sprint(nt+1))
+					emit(fmt.Sprintf("prog f64 new:rm:3,4:1;%s;%s", pre, step))
+				}
+			}
+		}
+		for _, l := range lives {
+			nt := 1 + strings.Count(l, "clone") + strings.Count(l, "slice") + strings.Count(l, "mat:") + strings.Count(l, "safeT")
+			for _, nx := range nexts {
+				for _, nsh := range []string{"3,2", "2,3", "3,4"} {
+					k := nt
+					step := strings.ReplaceAll(nx, "%d", fmt.Sprint(k))
+					emit(fmt.Sprintf("prog f64 new:rm:3,4:1;%s;new:rm:%s:20;%s", l, nsh, step))
+					emit(fmt.Sprintf("prog f64 new:rm:3,4:1;%s;new:rm:%s:20;new:cm:%s:40;%s;%s", l, nsh, nsh, step, strings.ReplaceAll(nx, "%d", fmt.Sprint(k+1))))
+				}
+			}
+		}
+	}
+}
+
 func genC19(tier string, r *rng, emit func(string)) {
 	thorough := tier == "thorough"
 	n := 1500
@@ -401,28 +449,7 @@ func genC19(tier string, r *rng, emit func(string)) {
 		emit(fmt.Sprintf("prog f64 %s;%s:reuse.2;new:rm:2,2:9;clone:0", pre, op))
 		emit(fmt.Sprintf("prog f64 %s;%s:incr.3;new:rm:2,2:9;clone:0", pre, op))
 	}
-	// recycled tensor structs: a tensor in some state (lazily transposed, clone of a transposed
-	// tensor, view, materialised, reshaped) goes back to the pool; the next tensors built from the
-	// recycled structs must behave as fresh ones under every structural operation
-	{
-		lives := []string{
-			"T:0:1,0;clone:0;ret:1", "T:0:1,0;ret:0", "slice:0:_/1.3.1;ret:1", "slice:0:_/1.3.1;T:1:1,0;ret:1",
-			"T:0:1,0;slice:0:0.2.1/_;ret:1", "T:0:1,0;mat:0;ret:1", "safeT:0:1,0;ret:1", "T:0:1,0;transpose:0;ret:0",
-			"reshape:0:2,6;ret:0", "T:0:1,0;clone:0;T:1:1,0;ret:1", "clone:0;T:1:1,0;clone:1;ret:1;ret:2",
-		}
-		nexts := []string{"T:%d:1,0;at:%d:0,1", "T:%d:1,0;UT:%d", "T:%d:1,0;transpose:%d", "slice:%d:_/0.1.1", "T:%d:1,0;mat:%d", "T:%d:1,0;clone:%d", "reshape:%d:6", "memset:%d:7", "UT:%d", "transpose:%d"}
-		for _, l := range lives {
-			nt := 1 + strings.Count(l, "clone") + strings.Count(l, "slice") + strings.Count(l, "mat:") + strings.Count(l, "safeT")
-			for _, nx := range nexts {
-				for _, nsh := range []string{"3,2", "2,3", "3,4"} {
-					k := nt
-					step := strings.ReplaceAll(nx, "%d", fmt.Sprint(k))
-					emit(fmt.Sprintf("prog f64 new:rm:3,4:1;%s;new:rm:%s:20;%s", l, nsh, step))
-					emit(fmt.Sprintf("prog f64 new:rm:3,4:1;%s;new:rm:%s:20;new:cm:%s:40;%s;%s", l, nsh, nsh, step, strings.ReplaceAll(nx, "%d", fmt.Sprint(k+1))))
-				}
-			}
-		}
-	}
+	recycleMotifs(emit)
 	// a rank-0 tensor used as the scalar operand of a safe operation is an operand like any other:
 	// it must come out unchanged (and stay usable) whatever the operation and the side
 	for _, op := range []string{"add", "sub", "mul", "div", "mod", "pow"} {
